@@ -37,8 +37,27 @@
 //! Non-trivial: >= 1 preemption landed on a yield point inside memory_pool/ (label
 //! `preempt:pool-vs-reservation` when it separates a pool update from the reservation's own atomic).
 //!
-//! PROBES
-//! (filled below)
+//! GENUINE FINDING (open, known_findings.json `fair-shared-spillable-concurrent-try-grow`; minimal case
+//! regressions/C17/c17c/fair-shared-spillable-concurrent-try-grow.json; candidate repair
+//! fixes/C17-fair-shared-reservation-grow-race.diff, verified with mutrun + VERIF_C17C_NO_EXCLUDE=1: 100 000
+//! cases + all exhaustive scenarios pass): FairSpillPool(10), one spillable consumer, one shared empty
+//! reservation, two threads `try_grow(6)`: thread A passes the pool check (size 0 + 6 <= 10) and is
+//! preempted before `MemoryReservation::try_grow` adds to `size`; thread B is checked against the same
+//! stale size; both are granted, the reservation ends with 12 > 10. RepartitionExec shares one spillable
+//! reservation per output partition among all its input tasks, so this is reachable. The shape (Fair, >= 2
+//! actors with a non-zero try_grow/try_resize on one spillable shared reservation) is excluded by
+//! construction (`known_signature`, counted in `known_excluded`) while the finding is open.
+//!
+//! Sensitivity probes (tools/mkpatch + tools/mutrun, `./check C17 quick`; all pass the sequential part c17
+//! and are caught here):
+//!   1. mod.rs `free`: `load` + `store(0)` instead of `swap(0)` (DESIGN probe)
+//!      -> VIOLATION after 253 cases: "at quiescence pool.reserved() = 2 but the live reservations hold [0, 1]" (1 preemption).
+//!   2. pool.rs GreedyMemoryPool::try_grow: `load`, compare, `store` instead of `fetch_update`
+//!      -> VIOLATION after 40 cases: "pool.reserved() = 0 but the live reservations hold [1]" (1 preemption).
+//!   3. peak_recording.rs `record`: running total updated with `load` + `store` instead of `fetch_add`
+//!      -> VIOLATION after 369 cases: "max_reserved 2 outside [max(set-up total 0, final total 3), ...]" (1 preemption).
+//! Not in the domain, noticed while reading: `PeakRecordingPool::reset_peak` (load total, store peak) racing with
+//! `record` can leave `peak_reserved` below the current total; its rustdoc places the call between queries.
 use crate::c17::{Base, Pools, Wrap, build_pools, limit_strategy, size_strategy};
 use datafusion_execution::memory_pool::{MemoryConsumer, MemoryReservation};
 use proptest::prelude::*;
